@@ -181,8 +181,10 @@ def short(fname):
     return f
 
 
-def solve(ctx, assertions, solver="z3", timeout=60):
+def solve(ctx, assertions, solver="z3", timeout=60, rewrite=None):
     text = "(set-logic ALL)\n(declare-sort V 0)\n" + "\n".join(ctx.decls.values()) + "\n" + "\n".join(f"(assert {a})" for a in assertions) + "\n(check-sat)\n(get-model)\n"
+    if rewrite is not None:
+        text = rewrite(text)
     cmd = {"z3": ["z3", "-in", f"-T:{timeout}"], "cvc5": ["cvc5", "--lang", "smt2", "--produce-models", f"--tlimit={timeout*1000}"]}[solver]
     t0 = time.time()
     p = subprocess.run(cmd, input=text, capture_output=True, text=True)
